@@ -18,6 +18,8 @@ struct Co {
     keys: u8,
     max_drops: usize,
     max_panics: usize,
+    /// the first inner call panics synchronously inside call()
+    sync_panic_first: bool,
 }
 
 #[derive(Clone, Debug, PartialEq)]
@@ -50,7 +52,7 @@ impl Scenario for Co {
         "C11"
     }
     fn label(&self) -> String {
-        format!("coalesce callers={} keys={}", self.callers, self.keys)
+        format!("coalesce callers={} keys={}{}", self.callers, self.keys, if self.sync_panic_first { " first-inner-call-panics-in-call()" } else { "" })
     }
     fn callers(&self) -> usize {
         self.callers
@@ -63,11 +65,19 @@ impl Scenario for Co {
     }
     fn init(&self, w: &mut World) -> X {
         let layer = CoalesceLayer::new(|r: &Req| r.key);
+        if self.sync_panic_first {
+            w.inner.lock().unwrap().sync_panic_calls = vec![0];
+        }
         let svc = layer.layer(GatedInner::new(w.inner.clone()));
         let start: Box<dyn FnMut(Req) -> CallerFut> = Box::new(move |req: Req| {
             let mut s = svc.clone();
             drive_ready::<_, Req>(&mut s, 4).expect("ready").ok();
-            let f = s.call(req);
+            // the inner service may panic inside call() itself: the leading request then
+            // panics before any future exists
+            let f = match std::panic::catch_unwind(std::panic::AssertUnwindSafe(|| s.call(req))) {
+                Ok(f) => f,
+                Err(_) => return Box::pin(async { Outcome::Layer("PanickedInCall".into()) }),
+            };
             trv_core::world::keep(f, |r| match r {
                 Ok(r) => Outcome::Ok(r),
                 Err(CoalesceError::Service(e)) => Outcome::Inner(e),
@@ -174,6 +184,8 @@ impl Scenario for Co {
                     let ok = match (&st, o) {
                         (CallStatus::Ok(r), Outcome::Ok(r2)) => r == r2,
                         (CallStatus::Err(e), Outcome::Inner(e2)) => e == e2,
+                        // the inner service panicked inside call(): the leading request panicked too
+                        (CallStatus::Panicked, Outcome::Layer(t)) => t == "PanickedInCall",
                         _ => false,
                     };
                     if !ok {
@@ -284,7 +296,10 @@ impl Scenario for Co {
 }
 
 fn configs(tier: Tier) -> Vec<Co> {
-    vec![Co { callers: tier.pick(3, 4), keys: 2, max_drops: tier.pick(2, 3), max_panics: 1 }]
+    vec![
+        Co { callers: tier.pick(3, 4), keys: 2, max_drops: tier.pick(2, 3), max_panics: 1, sync_panic_first: false },
+        Co { callers: 3, keys: 2, max_drops: 1, max_panics: 0, sync_panic_first: true },
+    ]
 }
 
 fn main() {
@@ -332,7 +347,7 @@ fn main() {
         let opts = Opts { max_depth: depth, time_cap: Duration::from_secs(tier.pick(40, 900)), ..Opts::default() };
         let ex = svcx::explore(&cfg, &opts, &mut rep);
         if tier == Tier::Thorough {
-            let small = Co { callers: 3, keys: 2, max_drops: 2, max_panics: 1 };
+            let small = Co { callers: 3, keys: 2, max_drops: 2, max_panics: 1, sync_panic_first: false };
             let _ = ex;
             let mut scratch = Report::new("C11", tier, "model_checking");
             let ex3 = svcx::explore(&small, &Opts { max_depth: 6, ..Opts::default() }, &mut scratch);
